@@ -1,6 +1,8 @@
 //! Correspondence harness: runs the *real* essential-base code on line-protocol cases.
 //! `harness run` reads cases on stdin (`<id> <family> <tokens…>`) and prints `<id> <result>`.
 mod fam_asm;
+mod fam_check;
+mod fam_lock;
 mod fam_crypto;
 mod fam_sign;
 mod fam_types;
@@ -33,6 +35,9 @@ fn run_line(line: &str) -> String {
         if let Some(r) = fam_types::run_oracle(fam, &mut t) {
             return r;
         }
+        if let Some(r) = fam_check::run(fam, &mut t) {
+            return r;
+        }
         if let Some(r) = fam_sign::run(fam, &mut t) {
             return r;
         }
@@ -43,6 +48,9 @@ fn run_line(line: &str) -> String {
             return r;
         }
         if let Some(r) = orc_asm::run(fam, &mut t) {
+            return r;
+        }
+        if let Some(r) = fam_lock::run(fam, &mut t) {
             return r;
         }
         Err("bad-family".to_string())
